@@ -24,6 +24,10 @@ Proof.
   - apply andb_true_iff in H as [H1 H2]. apply N.eqb_eq in H1. apply IHa in H2. congruence.
   - inversion H; subst. rewrite N.eqb_refl. apply IHa. auto.
 Qed.
+Lemma str_eqb_sym a b : str_eqb a b = str_eqb b a.
+Proof.
+  revert b; induction a as [|x a IH]; destruct b as [|y b]; cbn; auto. rewrite N.eqb_sym, IH. reflexivity.
+Qed.
 Lemma str_eqb_neq a b : a <> b -> str_eqb a b = false.
 Proof. intros H. destruct (str_eqb a b) eqn:E; auto. apply str_eqb_eq in E. contradiction. Qed.
 
